@@ -1,11 +1,15 @@
 (* C06, the code-round-trip clause: the normal form of decoded data is stable under to_code followed
    by from_code, up to the equality of CodeData values.
 
-   The statement S_C06_code_roundtrip of C06b_Statements.v is FALSE as written (three machine-checked
-   counterexamples below, one of them with the real 3.9 configuration: a code object whose *args name
-   is the empty string).  This file proves the corrected statement [C06_code_roundtrip_corrected]
-   (two extra premises on the configuration's flag table, true of the four generated configurations,
-   and one on the decoded signature), refutes the original one, and shows each extra premise is needed. *)
+   The statement S_C06_code_roundtrip of C06b_Statements.v quantifies over every configuration and is
+   false for configurations whose flag table is ill-formed or does not name CO_NOFREE (two
+   machine-checked counterexamples below).  This file proves the statement for configurations with
+   [cfg_flags_ok] (true of the four generated ones): [C06_code_roundtrip_cfg], and shows both parts of
+   that premise are needed.
+   History: an earlier version of the library tested Args.var_positional / var_keyword by truth value,
+   and a code object whose *args name is "" lost CO_VARARGS on the way back; that was a third
+   counterexample (real 3.9 configuration).  The library now tests [is not None]; the former witness
+   round-trips (Example former_witness_roundtrips). *)
 From Coq Require Import ZArith List Bool Lia ZifyBool.
 From PCD Require Import Base.PyBase Base.Cfg Model.Flags Model.Args Model.Data Model.Consts
   Model.LineTable Model.Blocks Model.CodeData Spec.Lnotab Spec.Dis Model.ViewSer
@@ -140,14 +144,7 @@ Qed.
 (* ------------------------------------------------------------------ *)
 (** * 3. The corrected statement *)
 
-(* the *args / **kwargs names of the decoded signature, when present, are not the empty string *)
-Definition signature_named (d : code_data) : Prop :=
-  match cd_type d with
-  | Some f => a_varpos (fn_args f) <> Some [] /\ a_varkw (fn_args f) <> Some []
-  | None => True
-  end.
-
-(* ORIGINAL (false, see section 5):
+(* ORIGINAL (false for some configurations, see section 5):
    Definition S_C06_code_roundtrip : Prop := forall c code ks d d' code',
      view_wf c code ks && ops_known c (co_code code) = true -> co_code code <> [] ->
      zlen (co_freevars code) < 1073741824 -> zlen (co_varnames code) < 1073741824 ->
@@ -162,15 +159,12 @@ Definition signature_named (d : code_data) : Prop :=
        forall d2, decode_code c code' (map fst kst) = OK d2 ->
          cd_eqb (normalize d2) (normalize d) = true.
 
-   Extra premises of the corrected statement:
-   (a) flags_wf (cfg_flags c): the configuration's flag table has distinct names and distinct
-       power-of-two values (C11's premise; true of Cfg37..Cfg310).  Without it a table with a repeated
-       name can turn one flag into another on the way back (counterexample cex_dup).
+   Extra premises of the corrected statement, both on the configuration:
+   (a) flags_wf (cfg_flags c): the flag table has distinct names and distinct power-of-two values
+       (C11's premise; true of Cfg37..Cfg310).  Without it a table with a repeated name can turn one
+       flag into another on the way back (counterexample cex2).
    (b) the table knows CO_NOFREE: the CodeType constructor clears/sets bit 64 when the table does not
-       name it, which destroys whatever flag the table put there (counterexample cex_nonofree).
-   (c) signature_named d: Args tests var_positional / var_keyword by truth value, so a code object
-       whose *args or **kwargs name is "" loses CO_VARARGS / CO_VARKEYWORDS in to_code, and the second
-       decode has no *args (counterexample cex_emptyvar, real 3.9 configuration). *)
+       name it, which destroys whatever flag the table put there (counterexample cex3). *)
 Definition S_C06_code_roundtrip_corrected : Prop := forall c code ks d d' code',
   view_wf c code ks && ops_known c (co_code code) = true -> co_code code <> [] ->
   zlen (co_freevars code) < 1073741824 -> zlen (co_varnames code) < 1073741824 ->
@@ -178,7 +172,6 @@ Definition S_C06_code_roundtrip_corrected : Prop := forall c code ks d d' code',
   (0 <=? cfg_extended_arg c) && (cfg_extended_arg c <? 256) = true ->
   flags_wf (cfg_flags c) = true -> flag_value (cfg_flags c) NOFREE <> None ->
   decode_code c code ks = OK d ->
-  signature_named d ->
   mapM_cd (fun k' => match from_const c k' with OK p => OK (k', p) | Err e => Err e end) (normalize d) = OK d' ->
   encode_code c d' = OK code' ->
   zlen (co_code code') < 1073741824 ->
@@ -189,7 +182,7 @@ Definition S_C06_code_roundtrip_corrected : Prop := forall c code ks d d' code',
 
 Theorem C06_code_roundtrip_corrected : S_C06_code_roundtrip_corrected.
 Proof.
-  intros c code ks d d' code' Hwf Hne Hfv Hvn Hnd Hext Hfwf Hnofree Hdec Hnamed Hpair Henc Hlen.
+  intros c code ks d d' code' Hwf Hne Hfv Hvn Hnd Hext Hfwf Hnofree Hdec Hpair Henc Hlen.
   assert (Hwf' := Hwf). apply andb_true_iff in Hwf' as [Hv Hops].
   destruct (flag_value (cfg_flags c) NOFREE) as [nf|] eqn:Enf; [clear Hnofree|now destruct Hnofree].
   (* the normal form reads as the original, constants normalized *)
@@ -200,9 +193,7 @@ Proof.
   unfold normalize, map_cd_norm in M0, M1, M2, M3, M4, M5, M6.
   cbn [cd_type cd_future_annotations cd_freevars cd_stacksize cd_firstline cd_name cd_filename]
     in M0, M1, M2, M3, M4, M5, M6.
-  assert (Hnamed' : match cd_type d' with Some f => H.args_named (fn_args f) | None => True end).
-  { rewrite M0. exact Hnamed. }
-  destruct (H.header_back c d' code' nf Hfwf Enf Hal Haa Hov Hnamed' Henc)
+  destruct (H.header_back c d' code' nf Hfwf Enf Hal Haa Hov Henc)
     as (code0 & lm0 & names & varnames & cellvars & constants & HB & Hconsts & Hhdr).
   destruct (emitted_facts_k c d' code' code0 lm0 names varnames cellvars constants Hdw Henc Hlen HB)
     as (Hagree & Hvwf & Hne').
@@ -259,15 +250,14 @@ Lemma generated_cfgs_flags_ok :
   cfg_flags_ok Cfg39.cfg = true /\ cfg_flags_ok Cfg310.cfg = true.
 Proof. repeat split; vm_compute; reflexivity. Qed.
 
-(* the corrected statement for a configuration whose flag table is fine *)
-Corollary C06_code_roundtrip_cfg : forall c code ks d d' code',
+(* the statement for a configuration whose flag table is fine *)
+Theorem C06_code_roundtrip_cfg : forall c code ks d d' code',
   cfg_flags_ok c = true ->
   view_wf c code ks && ops_known c (co_code code) = true -> co_code code <> [] ->
   zlen (co_freevars code) < 1073741824 -> zlen (co_varnames code) < 1073741824 ->
   nodup_str (co_freevars code) = true ->
   (0 <=? cfg_extended_arg c) && (cfg_extended_arg c <? 256) = true ->
   decode_code c code ks = OK d ->
-  signature_named d ->
   mapM_cd (fun k' => match from_const c k' with OK p => OK (k', p) | Err e => Err e end) (normalize d) = OK d' ->
   encode_code c d' = OK code' ->
   zlen (co_code code') < 1073741824 ->
@@ -280,68 +270,11 @@ Proof.
   intros. eapply C06_code_roundtrip_corrected; eauto.
 Qed.
 
-(* premise (c) stated on the code object: no empty string among co_varnames *)
-Lemma In_slice_from {A} n (l : list A) x : In x (py_slice_from n l) -> In x l.
-Proof.
-  assert (G : forall m, In x (skipn m l) -> In x l).
-  { intros m Hin. rewrite <- (firstn_skipn m l). apply in_or_app. right. exact Hin. }
-  unfold py_slice_from, drop. destruct (n <? 0); apply G.
-Qed.
-
-Lemma varnames_named c code ks d :
-  forallb (fun s : str => match s with [] => false | _ => true end) (co_varnames code) = true ->
-  decode_code c code ks = OK d -> signature_named d.
-Proof.
-  intros Hall Hdec. rewrite forallb_forall in Hall.
-  destruct (RoundTrip2.decode_code_inv _ _ _ _ Hdec)
-    as (lm0 & fl0 & a & fl1 & bt & lm' & nl & lm'' & _ & _ & Af & _ & Bt & _ & _ & Ed).
-  unfold signature_named. rewrite Ed. cbn [cd_type].
-  destruct (RoundTrip2.decode_bt_shape _ _ _ _ _ Bt) as [[-> _]|[doc [tp ->]]]; [exact I|]. cbn [fn_args].
-  unfold args_from_input in Af. cbv zeta in Af.
-  set (v3 := py_slice_from (co_kwonlyargcount code) _) in Af.
-  assert (H3 : forall x, In x v3 -> x <> []).
-  { intros x Hx E. subst x. unfold v3 in Hx. do 3 apply In_slice_from in Hx.
-    specialize (Hall [] Hx). discriminate. }
-  destruct (flag_mem VARARGS fl0).
-  - destruct v3 as [|x r]; [discriminate|]. cbv beta iota in Af.
-    destruct (flag_mem VARKEYWORDS (flag_remove VARARGS fl0)).
-    + destruct r as [|y r']; [discriminate|]. inversion Af; subst a. cbn [a_varpos a_varkw].
-      split; intros E; inversion E as [E']; [apply (H3 x)|apply (H3 y)]; cbn [In]; auto.
-    + inversion Af; subst a. cbn [a_varpos a_varkw].
-      split; [|discriminate]. intros E; inversion E as [E']. apply (H3 x); cbn [In]; auto.
-  - cbv beta iota in Af. destruct (flag_mem VARKEYWORDS fl0).
-    + destruct v3 as [|y r']; [discriminate|]. inversion Af; subst a. cbn [a_varpos a_varkw].
-      split; [discriminate|]. intros E; inversion E as [E']. apply (H3 y); cbn [In]; auto.
-    + inversion Af; subst a. cbn [a_varpos a_varkw]. split; discriminate.
-Qed.
-
-(* the corrected statement with all premises on the input code object and the configuration *)
-Corollary C06_code_roundtrip_varnames : forall c code ks d d' code',
-  cfg_flags_ok c = true ->
-  forallb (fun s : str => match s with [] => false | _ => true end) (co_varnames code) = true ->
-  view_wf c code ks && ops_known c (co_code code) = true -> co_code code <> [] ->
-  zlen (co_freevars code) < 1073741824 -> zlen (co_varnames code) < 1073741824 ->
-  nodup_str (co_freevars code) = true ->
-  (0 <=? cfg_extended_arg c) && (cfg_extended_arg c <? 256) = true ->
-  decode_code c code ks = OK d ->
-  mapM_cd (fun k' => match from_const c k' with OK p => OK (k', p) | Err e => Err e end) (normalize d) = OK d' ->
-  encode_code c d' = OK code' ->
-  zlen (co_code code') < 1073741824 ->
-  exists kst : list pconst,
-    map snd kst = co_consts code' /\
-    forall d2, decode_code c code' (map fst kst) = OK d2 ->
-      cd_eqb (normalize d2) (normalize d) = true.
-Proof.
-  intros c code ks d d' code' Hc Hnames P1 P2 P3 P4 P5 P6 P7 P8 P9 P10.
-  exact (C06_code_roundtrip_cfg c code ks d d' code' Hc P1 P2 P3 P4 P5 P6 P7
-           (varnames_named c code ks d Hnames P7) P8 P9 P10).
-Qed.
-
 (* ------------------------------------------------------------------ *)
-(** * 5. The original statement is false; each extra premise is needed *)
+(** * 5. The original statement (all configurations) is false; each part of cfg_flags_ok is needed *)
 
-(* the corrected statement with each of the three extra premises switchable *)
-Definition S_variant (pa pb pc : bool) : Prop := forall c code ks d d' code',
+(* the corrected statement with each of the two extra premises switchable *)
+Definition S_variant (pa pb : bool) : Prop := forall c code ks d d' code',
   view_wf c code ks && ops_known c (co_code code) = true -> co_code code <> [] ->
   zlen (co_freevars code) < 1073741824 -> zlen (co_varnames code) < 1073741824 ->
   nodup_str (co_freevars code) = true ->
@@ -349,7 +282,6 @@ Definition S_variant (pa pb pc : bool) : Prop := forall c code ks d d' code',
   (if pa then flags_wf (cfg_flags c) = true else True) ->
   (if pb then flag_value (cfg_flags c) NOFREE <> None else True) ->
   decode_code c code ks = OK d ->
-  (if pc then signature_named d else True) ->
   mapM_cd (fun k' => match from_const c k' with OK p => OK (k', p) | Err e => Err e end) (normalize d) = OK d' ->
   encode_code c d' = OK code' ->
   zlen (co_code code') < 1073741824 ->
@@ -358,16 +290,16 @@ Definition S_variant (pa pb pc : bool) : Prop := forall c code ks d d' code',
     forall d2, decode_code c code' (map fst kst) = OK d2 ->
       cd_eqb (normalize d2) (normalize d) = true.
 
-Lemma variant_all : S_variant true true true.
+Lemma variant_all : S_variant true true.
 Proof. exact C06_code_roundtrip_corrected. Qed.
 
-Lemma original_implies_variant (pa pb pc : bool) : S_C06_code_roundtrip -> S_variant pa pb pc.
+Lemma original_implies_variant (pa pb : bool) : S_C06_code_roundtrip -> S_variant pa pb.
 Proof.
-  intros HS c code ks d d' code' P1 P2 P3 P4 P5 P6 _ _ P7 _ P8 P9 P10.
+  intros HS c code ks d d' code' P1 P2 P3 P4 P5 P6 _ _ P7 P8 P9 P10.
   exact (HS c code ks d d' code' P1 P2 P3 P4 P5 P6 P7 P8 P9 P10).
 Qed.
 
-Lemma refute_variant (pa pb pc : bool) c code ks d d' code' :
+Lemma refute_variant (pa pb : bool) c code ks d d' code' :
   view_wf c code ks && ops_known c (co_code code) = true -> co_code code <> [] ->
   zlen (co_freevars code) < 1073741824 -> zlen (co_varnames code) < 1073741824 ->
   nodup_str (co_freevars code) = true ->
@@ -375,16 +307,15 @@ Lemma refute_variant (pa pb pc : bool) c code ks d d' code' :
   (if pa then flags_wf (cfg_flags c) = true else True) ->
   (if pb then flag_value (cfg_flags c) NOFREE <> None else True) ->
   decode_code c code ks = OK d ->
-  (if pc then signature_named d else True) ->
   mapM_cd (fun k' => match from_const c k' with OK p => OK (k', p) | Err e => Err e end) (normalize d) = OK d' ->
   encode_code c d' = OK code' ->
   zlen (co_code code') < 1073741824 ->
   (forall kst : list pconst, map snd kst = co_consts code' ->
      exists d2, decode_code c code' (map fst kst) = OK d2 /\ cd_eqb (normalize d2) (normalize d) = false) ->
-  ~ S_variant pa pb pc.
+  ~ S_variant pa pb.
 Proof.
-  intros P1 P2 P3 P4 P5 P6 Pa Pb P7 Pc P8 P9 P10 Hno HS.
-  destruct (HS c code ks d d' code' P1 P2 P3 P4 P5 P6 Pa Pb P7 Pc P8 P9 P10) as (kst & Hk & Hall).
+  intros P1 P2 P3 P4 P5 P6 Pa Pb P7 P8 P9 P10 Hno HS.
+  destruct (HS c code ks d d' code' P1 P2 P3 P4 P5 P6 Pa Pb P7 P8 P9 P10) as (kst & Hk & Hall).
   destruct (Hno kst Hk) as (d2 & Hd2 & Hf). rewrite (Hall d2 Hd2) in Hf. discriminate.
 Qed.
 
@@ -400,45 +331,14 @@ Definition with_flags (c : cfg) (fl : list (flag * Z)) : cfg :=
      cfg_hasconst := cfg_hasconst c; cfg_have_argument := cfg_have_argument c;
      cfg_extended_arg := cfg_extended_arg c; cfg_opcodes := cfg_opcodes c; cfg_flags := fl |}.
 
+(* never vm_compute the goal while kst is still universally quantified *)
 Ltac run_cex :=
   let kst := fresh "kst" in let Hk := fresh "Hk" in let k0 := fresh "k0" in let p0 := fresh "p0" in
   intros kst Hk; vm_compute in Hk;
   destruct kst as [|[k0 p0] [|? ?]]; try discriminate Hk;
   destruct k0 as [[]|]; (eexists; split; [vm_compute; reflexivity|vm_compute; reflexivity]).
 
-(** ** (c) the real 3.9 configuration: a function whose *args name is the empty string
-    [def f(a, b, *<"">, c, **e): return None], as types.CodeType / code.replace can build it.
-    to_code_data gives var_positional = ""; args_to_input tests [if args.var_positional:], so to_code
-    drops CO_VARARGS and the name; the second from_code has no *args. *)
-Definition cex1_code : pycode :=
-  mkCode 2 0 1 5 1 79 [100; 0; 83; 0] [PInner INone] [] [[97]; [98]; [99]; []; [101]] [60] [102] 1 [0; 1] [] [].
 Definition cex1_ks : list const := [KInner INone].
-Definition cex1_d : code_data := Eval vm_compute in get dflt_cd (decode_code Cfg39.cfg cex1_code cex1_ks).
-Definition cex1_d' : code_data_ pconst :=
-  Eval vm_compute in get dflt_cd (mapM_cd (pairf Cfg39.cfg) (normalize cex1_d)).
-Definition cex1_code' : pycode := Eval vm_compute in get dflt_code (encode_code Cfg39.cfg cex1_d').
-
-Theorem variant_needs_named : ~ S_variant true true false.
-Proof.
-  apply (refute_variant true true false Cfg39.cfg cex1_code cex1_ks cex1_d cex1_d' cex1_code').
-  - vm_compute; reflexivity.
-  - discriminate.
-  - vm_compute; reflexivity.
-  - vm_compute; reflexivity.
-  - vm_compute; reflexivity.
-  - vm_compute; reflexivity.
-  - vm_compute; reflexivity.
-  - vm_compute; discriminate.
-  - vm_compute; reflexivity.
-  - exact I.
-  - vm_compute; reflexivity.
-  - vm_compute; reflexivity.
-  - vm_compute; reflexivity.
-  - run_cex.
-Qed.
-
-Theorem C06_code_roundtrip_false : ~ S_C06_code_roundtrip.
-Proof. intros HS. exact (variant_needs_named (original_implies_variant _ _ _ HS)). Qed.
 
 (** ** (a) a flag table with a repeated name: GENERATOR listed with the values 32 and 128, 32 also
     being F_annotations.  flags = 195 decodes as a generator without the annotations future; to_code
@@ -453,9 +353,9 @@ Definition cex2_d' : code_data_ pconst :=
   Eval vm_compute in get dflt_cd (mapM_cd (pairf cex2_cfg) (normalize cex2_d)).
 Definition cex2_code' : pycode := Eval vm_compute in get dflt_code (encode_code cex2_cfg cex2_d').
 
-Theorem variant_needs_flags_wf : ~ S_variant false true true.
+Theorem variant_needs_flags_wf : ~ S_variant false true.
 Proof.
-  apply (refute_variant false true true cex2_cfg cex2_code cex1_ks cex2_d cex2_d' cex2_code').
+  apply (refute_variant false true cex2_cfg cex2_code cex1_ks cex2_d cex2_d' cex2_code').
   - vm_compute; reflexivity.
   - discriminate.
   - vm_compute; reflexivity.
@@ -465,12 +365,15 @@ Proof.
   - exact I.
   - vm_compute; discriminate.
   - vm_compute; reflexivity.
-  - vm_compute; split; discriminate.
   - vm_compute; reflexivity.
   - vm_compute; reflexivity.
   - vm_compute; reflexivity.
   - run_cex.
 Qed.
+
+(* hence the original statement, which has neither premise, is false *)
+Theorem C06_code_roundtrip_needs_cfg_flags_ok : ~ S_C06_code_roundtrip.
+Proof. intros HS. exact (variant_needs_flags_wf (original_implies_variant _ _ HS)). Qed.
 
 (** ** (b) a well-formed flag table that does not name CO_NOFREE and uses bit 64 for GENERATOR: a
     generator with a free variable; CodeType clears bit 64 because there are free variables. *)
@@ -482,9 +385,9 @@ Definition cex3_d' : code_data_ pconst :=
   Eval vm_compute in get dflt_cd (mapM_cd (pairf cex3_cfg) (normalize cex3_d)).
 Definition cex3_code' : pycode := Eval vm_compute in get dflt_code (encode_code cex3_cfg cex3_d').
 
-Theorem variant_needs_nofree : ~ S_variant true false true.
+Theorem variant_needs_nofree : ~ S_variant true false.
 Proof.
-  apply (refute_variant true false true cex3_cfg cex3_code cex1_ks cex3_d cex3_d' cex3_code').
+  apply (refute_variant true false cex3_cfg cex3_code cex1_ks cex3_d cex3_d' cex3_code').
   - vm_compute; reflexivity.
   - discriminate.
   - vm_compute; reflexivity.
@@ -494,17 +397,62 @@ Proof.
   - vm_compute; reflexivity.
   - exact I.
   - vm_compute; reflexivity.
-  - vm_compute; split; discriminate.
   - vm_compute; reflexivity.
   - vm_compute; reflexivity.
   - vm_compute; reflexivity.
   - run_cex.
 Qed.
 
+(* ------------------------------------------------------------------ *)
+(** * 6. The former third counterexample now round-trips *)
+
+(* decode, normalize, pair, encode, decode again with the constants table blocks_to_bytes emitted
+   (the witness kst of the theorem), normalize, compare; also: the premises of the theorem hold and the
+   second decode still has var_positional = "" *)
+Definition roundtrip_check (c : cfg) (code : pycode) (ks : list const) : bool :=
+  match decode_code c code ks with
+  | Err _ => false
+  | OK d =>
+    match mapM_cd (pairf c) (normalize d) with
+    | Err _ => false
+    | OK d' =>
+      match encode_code c d', ECo.b2b c d' with
+      | OK code', OK (_, _, _, _, _, kst) =>
+          match decode_code c code' (map fst kst) with
+          | Err _ => false
+          | OK d2 =>
+              view_wf c code ks && ops_known c (co_code code) && nodup_str (co_freevars code)
+              && cd_eqb (normalize d2) (normalize d)
+              && option_eqb function_eqb (cd_type d2) (cd_type d)
+          end
+      | _, _ => false
+      end
+    end
+  end.
+
+(* [def f(a, b, *<"">, c, **e): return None], real 3.9 configuration: CO_VARARGS (4) is kept *)
+Definition cex1_code : pycode :=
+  mkCode 2 0 1 5 1 79 [100; 0; 83; 0] [PInner INone] [] [[97]; [98]; [99]; []; [101]] [60] [102] 1 [0; 1] [] [].
+
+Example former_witness_roundtrips :
+  roundtrip_check Cfg39.cfg cex1_code cex1_ks = true /\
+  (match decode_code Cfg39.cfg cex1_code cex1_ks with
+   | OK d => match cd_type d with Some f => a_varpos (fn_args f) | None => None end
+   | Err _ => None
+   end) = Some [] /\
+  (match decode_code Cfg39.cfg cex1_code cex1_ks with
+   | OK d => match mapM_cd (pairf Cfg39.cfg) (normalize d) with
+             | OK d' => match encode_code Cfg39.cfg d' with OK code' => co_flags code' | Err _ => -1 end
+             | Err _ => -1
+             end
+   | Err _ => -1
+   end) = 79.
+Proof. repeat split; vm_compute; reflexivity. Qed.
+
 Print Assumptions C06_code_roundtrip_corrected.
 Print Assumptions C06_code_roundtrip_cfg.
-Print Assumptions C06_code_roundtrip_varnames.
-Print Assumptions C06_code_roundtrip_false.
-Print Assumptions variant_needs_named.
+Print Assumptions generated_cfgs_flags_ok.
+Print Assumptions C06_code_roundtrip_needs_cfg_flags_ok.
 Print Assumptions variant_needs_flags_wf.
 Print Assumptions variant_needs_nofree.
+Print Assumptions former_witness_roundtrips.
